@@ -287,3 +287,59 @@ Definition spec_enc_vlr_header (ext : bool) (vals : list value) : result (list Z
 Definition spec_dec_vlr_header (ext : bool) (bytes : list Z) : assoc * list Z := dec_fields (spec_vlr_hdr_layout ext) bytes.
 Definition spec_enc_eb_descriptor (vals : list value) : result (list Z) := enc_fields spec_eb_descriptor vals.
 Definition spec_dec_eb_descriptor (bytes : list Z) : assoc * list Z := dec_fields spec_eb_descriptor bytes.
+
+(* ------------------------------------------------------------------------------------------ *)
+(* records as long as the header says: undocumented trailing bytes, and how laspy resolves the  *)
+(* layout of a file's records (Gen/GenC02.v resolve_record, translated from LasHeader.read_from) *)
+(* ------------------------------------------------------------------------------------------ *)
+(* the dimension laspy appends for bytes nobody describes: [n] elements of trailing_dim's type, one name *)
+Definition gen_undoc_items (n : Z) : option (list item) :=
+  let '(nm, k, w) := trailing_dim in
+  option_map (fun t => repeat (nm, t) (Z.to_nat n)) (kind_type k w).
+
+Definition gen_point_layout_rl (f : Z) (ebs : list eb_desc) (trailing : Z) : option (list placed) :=
+  match gen_std_layout f, gen_record_length f, gen_eb_types, gen_undoc_items trailing with
+  | Some L, Some n, Some tbl, Some u =>
+      match eb_items_of tbl ebs with
+      | Some its => if 0 <=? trailing then Some (L ++ with_offsets n (its ++ u)) else None
+      | None => None
+      end
+  | _, _, _, _ => None
+  end.
+
+Definition gen_record_layout (f : Z) (ebs : list eb_desc) (hv : bool) (ps : Z) : result (list placed) :=
+  match gen_eb_types, gen_record_length f with
+  | Some tbl, Some std =>
+      match eb_items_of tbl ebs with
+      | Some b =>
+          match resolve_record ps std (total_width b) hv with
+          | Ok (used, t) =>
+              match gen_point_layout_rl f (if used then ebs else []) t with Some L => Ok L | None => Err EValue end
+          | Err e => Err e
+          end
+      | None => Err EValue
+      end
+  | _, _ => Err EValue
+  end.
+
+(* the reference codec with trailing undocumented bytes (0 = the plain layouts above) *)
+Definition spec_enc_point_rl (f : Z) (ebs : list eb_desc) (t : Z) (vals : list Z) : result (list Z) :=
+  with_layout (spec_point_layout_rl f ebs t) (fun L => enc_point L vals).
+Definition spec_dec_point_rl (f : Z) (ebs : list eb_desc) (t : Z) (bytes : list Z) : result (list Z) :=
+  with_layout (spec_point_layout_rl f ebs t) (fun L => dec_point L bytes).
+Definition spec_leaf_names_rl (f : Z) (ebs : list eb_desc) (t : Z) : result (list string) :=
+  with_layout (spec_point_layout_rl f ebs t) (fun L => Ok (leaf_names L)).
+Definition spec_point_size_rl (f : Z) (ebs : list eb_desc) (t : Z) : result Z :=
+  with_layout (spec_point_layout_rl f ebs t) (fun L => Ok (layout_len L)).
+Definition gen_enc_point_rl (f : Z) (ebs : list eb_desc) (t : Z) (vals : list Z) : result (list Z) :=
+  with_layout (gen_point_layout_rl f ebs t) (fun L => enc_point L vals).
+Definition gen_dec_point_rl (f : Z) (ebs : list eb_desc) (t : Z) (bytes : list Z) : result (list Z) :=
+  with_layout (gen_point_layout_rl f ebs t) (fun L => dec_point L bytes).
+
+(* what the driver answers for "which records does this file have": (number of leaves, record length) of laspy's layout *)
+Definition layout_summary (r : result (list placed)) : result (Z * Z) :=
+  match r with Ok L => Ok (len (leaf_names L), layout_len L) | Err e => Err e end.
+Definition gen_record_summary (f : Z) (ebs : list eb_desc) (hv : bool) (ps : Z) : result (Z * Z) :=
+  layout_summary (gen_record_layout f ebs hv ps).
+Definition spec_record_summary (f : Z) (ebs : list eb_desc) (hv : bool) (ps : Z) : result (Z * Z) :=
+  layout_summary (spec_record_layout f ebs hv ps).
